@@ -121,8 +121,18 @@ def frame_cases(draw):
     disable_filter = draw(st.booleans()) and draw(st.booleans())
     cols = []
     for j in range(m):
-        kind = draw(st.sampled_from(['bool', 'int64', 'float64', 'str', 'str']))
-        if kind == 'str':
+        kind = draw(st.sampled_from(['str', 'int64', 'float64', 'bool', 'str', 'ostr']))
+        if kind == 'ostr' and not disable_filter:
+            # text with missing cells (None / NaN) in an object column: written as 'None' / '' and read back through the filter
+            vals = draw(st.lists(st.one_of(text_cells(min_size=1), st.sampled_from([None, float('nan')])), min_size=n, max_size=n))
+            if not any(v is None or v != v for v in vals):
+                vals[-1] = None
+            if all(v is None or v != v for v in vals):
+                vals[0] = 'a b'  # a column of empty cells only carries no type information (as for float columns)
+            a = np.empty(n, dtype=object)
+            a[:] = vals
+            cols.append(a)
+        elif kind in ('str', 'ostr'):
             vals = draw(st.lists(text_cells(min_size=0 if disable_filter else 1), min_size=n, max_size=n))
             if all(v == '' for v in vals):
                 vals[0] = 'a b'
@@ -214,8 +224,11 @@ def check_delimited(case):
             # an all-NaN float column has no text to infer a type from
             if c.dtype.kind == 'f' and np.isnan(c).all():
                 continue
+            # an object column of text without a missing cell comes back as a str column
+            if c.dtype == object and g.dtype.kind == 'U' and not any(is_missing(v) for v in c.tolist()):
+                continue
             raise Failure('dtype', 'column %d: dtype %s came back as %s; text=%r' % (j, c.dtype, g.dtype, text[:300]))
-    special = any(c.dtype.kind == 'U' and any((delim in v) or ('"' in v) or ("'" in v) or (' ' in v) for v in c.tolist()) for c in cols)
+    special = any(c.dtype.kind in 'UO' and any(isinstance(v, str) and ((delim in v) or ('"' in v) or ("'" in v) or (' ' in v)) for v in c.tolist()) for c in cols)
     return {'nt': special or (inc_i and case['idepth'] > 1) or (inc_c and case['cdepth'] > 1), 'cls': classes + (['special-cell'] if special else [])}
 
 
@@ -296,7 +309,7 @@ def tag(case, f):
         # np.genfromtxt returns a 1-D (or 0-d) array for single-column text; rows and columns are confused
         return 'single-column-text-not-round-tripped'
     delim = case['delim']
-    cells = [v for c in case['cols'] if c.dtype.kind == 'U' for v in c.tolist()]
+    cells = [v for c in case['cols'] if c.dtype.kind in 'UO' for v in c.tolist() if isinstance(v, str)]
     labs = []
     for l in list(case['il']) + list(case['cl']):
         labs += [x for x in (l if isinstance(l, tuple) else (l,)) if isinstance(x, str)]
